@@ -171,6 +171,7 @@ Example C17_nonvacuous :
   write_mask_text kmip_registry 4325420 12 = s2b "Encrypt | Decrypt" /\
   mask_unmarshal_text kmip_registry 4325420 (s2b "Encrypt | Decrypt") = Ok 12.
 Proof. exact kmip_examples. Qed.
+Print Assumptions C17_nonvacuous.
 
 (* the defect repaired in the three mask readers: bit 31 is written 0x80000000, which
    ParseInt(.., 16, 32) rejects and ParseUint(.., 16, 32) accepts *)
@@ -178,3 +179,13 @@ Example C17_bit31_needs_unsigned :
   parse_int 16 32 (s2b "80000000") = None /\ parse_uint 16 32 (s2b "80000000") = Some (2 ^ 31) /\
   to_i32 (2 ^ 31) = shl32 31.
 Proof. exact bit31_needs_unsigned. Qed.
+Print Assumptions C17_bit31_needs_unsigned.
+
+(* the hygiene part of [registry_ok] is necessary: with a numeric-looking name the maps are still
+   mutually inverse, the checker says no, and the text round trip indeed returns another number *)
+Example C17_hygiene_is_needed :
+  registry_ok numeric_name_registry = false /\
+  bij_check [(7, s2b "12")] [(s2b "12", 7)] = true /\
+  read_enum numeric_name_registry 0 1 (write_enum numeric_name_registry 0 1 7) = Ok 12.
+Proof. exact hygiene_is_needed. Qed.
+Print Assumptions C17_hygiene_is_needed.
